@@ -124,9 +124,12 @@ inductive RedeemRes where
 structure Env where
   rx : Str → Str → Bool
   clean : Str → Str                               -- gorilla/mux cleanPath
-  trusted : Req → Bool                            -- client address ∈ trusted networks (NetSet model)
-  bearer : Req → Option Session                   -- JWT loader result (sound by Model/Token)
-  basic : Req → Option Session                    -- basic-auth loader result
+  /-- `trustedText fromHeader text`: the client-address text (value of the configured real-IP
+      header when `fromHeader`, else RemoteAddr) parses to an address inside a trusted network
+      (Model/NetSet + Model/ClientIP) -/
+  trustedText : Bool → Str → Bool
+  bearerOf : Str → Option Session                 -- JWT loader on the Authorization value (Model/Token)
+  basicOf : Str → Option Session                  -- basic-auth loader on the Authorization value
   load1 : LoadRes                                 -- first sessionStore.Load
   lock : LockRes
   load2 : LoadRes                                 -- reload under lock
@@ -135,7 +138,9 @@ structure Env where
   validate : Session → Bool                       -- provider.ValidateSession
   clearOK : Bool                                  -- sessionStore.Clear returned nil
   emailOK : Str → Bool                            -- p.Validator
-  redirectOf : Req → Str                          -- appDirector.GetRedirect (always valid or "/", Props/C06)
+  /-- appDirector.GetRedirect on the extracted inputs: rd, X-Auth-Request-Redirect, isForwarded,
+      proto, host, uri (GetRequest*), req.URL.RequestURI() (Model/Redirect; always valid or "/") -/
+  getRedirect : Str → Str → Bool → Str → Str → Str → Str → Str
   redirectErr : Bool := false                     -- GetRedirect failed (ParseForm error)
   isValidRedirect : Str → Bool
   csrfByName : Str → Option CSRF                  -- LoadCSRFCookie(name): validated, decrypted, decoded
@@ -149,7 +154,7 @@ structure Env where
   challenge : Str → Str → Option Str              -- GenerateCodeChallenge method verifier
   ready : Bool                                    -- VerifyConnection succeeded
   htpasswdOK : Str → Str → Bool
-  oauthRedirectURI : Req → Str
+  oauthRedirectURIOf : Str → Str → Str            -- request host, request proto ↦ redirect_uri
   loginURL : Str → Str → Str → List (Str × Str) → Str   -- redirectURI state nonce extra ↦ URL
   csrfCookieName : Str → Str                      -- state substring ↦ cookie name
   now : Int
@@ -192,6 +197,27 @@ def requestProto (cfg : Cfg) (r : Req) : Str :=
 def requestURI (cfg : Cfg) (r : Req) : Str :=
   let h := r.header "X-Forwarded-Uri".toList
   if !cfg.reverseProxy || h.isEmpty then r.uri else h
+
+/-- text consulted for the client address: the configured real-client-IP header in reverse-proxy
+    mode (the parser is configured only there: pkg/validation/options.go), RemoteAddr otherwise -/
+def clientAddrText (cfg : Cfg) (r : Req) : Bool × Str :=
+  if cfg.reverseProxy then (true, r.header cfg.realIPHeader) else (false, r.remoteAddr)
+
+def Env.trusted (env : Env) (cfg : Cfg) (r : Req) : Bool :=
+  let (h, t) := clientAddrText cfg r
+  env.trustedText h t
+
+def isForwardedRequest (cfg : Cfg) (r : Req) : Bool := cfg.reverseProxy && r.host != requestHost cfg r
+
+def Env.redirectOf (env : Env) (cfg : Cfg) (r : Req) : Str :=
+  env.getRedirect (formGet r.form "rd".toList) (r.header "X-Auth-Request-Redirect".toList)
+    (isForwardedRequest cfg r) (requestProto cfg r) (requestHost cfg r) (requestURI cfg r) r.uri
+
+def Env.oauthRedirectURI (env : Env) (cfg : Cfg) (r : Req) : Str :=
+  env.oauthRedirectURIOf (requestHost cfg r) (requestProto cfg r)
+
+def Env.bearer (env : Env) (r : Req) : Option Session := env.bearerOf (r.header "Authorization".toList)
+def Env.basic (env : Env) (r : Req) : Option Session := env.basicOf (r.header "Authorization".toList)
 
 /-! ### routing -/
 
@@ -300,10 +326,6 @@ def sessionChain (cfg : Cfg) (env : Env) (r : Req) : ChainOut :=
 
 /-! ### authorisation (getAuthenticatedSession) -/
 
-def bypass (cfg : Cfg) (env : Env) (r : Req) : Bool :=
-  isAllowedRequest env.rx cfg.skipPreflight cfg.routes (cfg.hasTrustedIPs && env.trusted r) r.method
-    (stripQuery (requestURI cfg r) |> fun p => p)   -- NOTE: refined below by `bypassPath`
-
 def groupsOK (allowed groups : List Str) : Bool :=
   allowed.isEmpty || groups.any (fun g => allowed.contains g)
 
@@ -325,7 +347,7 @@ def getAuthenticatedSession (cfg : Cfg) (env : Env) (bypassed : Bool) (sess : Op
 /-- path the skip-auth rules see: the PATH component of the request URI (X-Forwarded-Uri's in
     reverse-proxy mode) — `pathOfURI` is supplied by the glue (`url.Parse(uri).Path`). -/
 def bypassDecision (cfg : Cfg) (env : Env) (pathOfURI : Str → Str) (r : Req) : Bool :=
-  isAllowedRequest env.rx cfg.skipPreflight cfg.routes (cfg.hasTrustedIPs && env.trusted r) r.method
+  isAllowedRequest env.rx cfg.skipPreflight cfg.routes (cfg.hasTrustedIPs && env.trusted cfg r) r.method
     (pathOfURI (requestURI cfg r))
 
 /-! ### handlers -/
@@ -362,8 +384,8 @@ def doOAuthStart (cfg : Cfg) (env : Env) (r : Req) (extra : List (Str × Str)) (
       let extra' := match ch with
         | some (c, m) => extra ++ [("code_challenge".toList, c), ("code_challenge_method".toList, m)]
         | none => extra
-      let state := encodeStateRaw (env.hash csrf.state) (env.redirectOf r)
-      let url := env.loginURL (env.oauthRedirectURI r) state (env.hash csrf.nonce) extra'
+      let state := encodeStateRaw (env.hash csrf.state) (env.redirectOf cfg r)
+      let url := env.loginURL (env.oauthRedirectURI cfg r) state (env.hash csrf.nonce) extra'
       { status := 302, kind := .idpRedirect, location := url, cookies := pre ++ [.setCSRF csrf] }
 
 def signInPage (env : Env) (code : Nat) (pre : List CookieOp) : Resp :=
@@ -400,10 +422,10 @@ def userInfoHandler (cfg : Cfg) (env : Env) (bypassed : Bool) (ch : ChainOut) : 
   | .ok none => { status := 200, kind := .emptyUserInfo, cookies := ch.cookies }
   | .ok (some s) => { status := 200, kind := .userInfo, cookies := ch.cookies, disclosed := some s }
 
-def signOutHandler (env : Env) (r : Req) (ch : ChainOut) : Resp :=
+def signOutHandler (cfg : Cfg) (env : Env) (r : Req) (ch : ChainOut) : Resp :=
   if env.redirectErr then errorPage 500 ch.cookies
   else if !env.clearOK then errorPage 500 (ch.cookies ++ [.clearSession])
-  else { status := 302, kind := .redirect, location := env.redirectOf r, cookies := ch.cookies ++ [.clearSession] }
+  else { status := 302, kind := .redirect, location := env.redirectOf cfg r, cookies := ch.cookies ++ [.clearSession] }
 
 def manualSignIn (cfg : Cfg) (env : Env) (r : Req) : Option Str × Nat :=
   if r.method != "POST".toList || !cfg.basicEnabled then (none, 200)
@@ -419,7 +441,7 @@ def signInHandler (cfg : Cfg) (env : Env) (r : Req) : Resp :=
   else match manualSignIn cfg env r with
     | (some user, _) =>
       let s : Session := { user := user, groups := cfg.basicGroups }
-      if env.saveOK then { status := 302, kind := .redirect, location := env.redirectOf r, cookies := [.setSession s] }
+      if env.saveOK then { status := 302, kind := .redirect, location := env.redirectOf cfg r, cookies := [.setSession s] }
       else errorPage 500
     | (none, code) =>
       if cfg.skipProviderButton then doOAuthStart cfg env r r.query []
@@ -446,7 +468,7 @@ def callbackHandler (cfg : Cfg) (env : Env) (r : Req) (decodeB64 : Str → Str) 
       | some csrf =>
         let code := formGet r.form "code".toList
         if code.isEmpty then errorPage 500
-        else match env.redeem code csrf.verifier (env.oauthRedirectURI r) with
+        else match env.redeem code csrf.verifier (env.oauthRedirectURI cfg r) with
           | .err => { (errorPage 500) with redeemedWith := some (code, csrf.verifier) }
           | .ok s0 =>
             let s1 : Session := { s0 with createdAt := s0.createdAt.or (some env.now),
@@ -472,7 +494,7 @@ def callbackHandler (cfg : Cfg) (env : Env) (r : Req) (decodeB64 : Str → Str) 
 structure Glue where
   pathOfURI : Str → Str                 -- url.Parse(uri).Path (fallback: cut at '?')
   decodeB64 : Str → Str
-  constraintsOK : Req → Session → Bool  -- auth-only query constraints (Model/Authz)
+  constraintsOK : List (Str × Str) → Session → Bool  -- auth-only query constraints (Model/Authz)
 
 def httpsOK (cfg : Cfg) (r : Req) : Bool :=
   let proto := requestProto cfg r
@@ -493,13 +515,13 @@ def serve (cfg : Cfg) (env : Env) (g : Glue) (r : Req) : Resp :=
         | .callback => callbackHandler cfg env r g.decodeB64
         | .authOnly =>
           let ch := sessionChain cfg env r
-          authOnlyHandler cfg env (bypassDecision cfg env g.pathOfURI r) ch (g.constraintsOK r)
+          authOnlyHandler cfg env (bypassDecision cfg env g.pathOfURI r) ch (g.constraintsOK r.query)
         | .userInfo =>
           let ch := sessionChain cfg env r
           userInfoHandler cfg env (bypassDecision cfg env g.pathOfURI r) ch
         | .signOut =>
           let ch := sessionChain cfg env r
-          signOutHandler env r ch
+          signOutHandler cfg env r ch
         | _ =>
           let ch := sessionChain cfg env r
           proxyHandler cfg env r (bypassDecision cfg env g.pathOfURI r) ch
